@@ -62,6 +62,8 @@ def run(ck, fb, fbd):
     ck.rule("C11.valence", "tetrahedral/hexahedral add_face/add_cell reach the base implementation only with 3/4 (4/6) entries and, for cells, only after rejecting any face whose valence differs from 3 (4)")
     ck.rule("C11.topology", "add_face's topology check compares to_vertex(h[i]) with from_vertex(h[i+1]) for every consecutive pair and last-to-first; add_cell's runs sort, adjacent_find and unique (edge-wise) over the same vector and rejects duplicates and n != 2*unique")
     ck.rule("C11.dedup", "add_edge without duplicates inspects the to-vertex of halfedges leaving the from-vertex (cache branch) and both orientations of every edge (linear branch)")
+    from .rule_u import sorted_rule
+    sorted_rule(ck, fb, lambda g: g.pq.startswith(TK + "::"), floor=2)
     elem = elem_effects(c)
     # kernel / resource-manager members that change state: direct shape or cache-element effects, closed under calls
     mutating = {fid for fid in c.eff} | {fid for fid, v in elem.items() if v}
